@@ -59,25 +59,25 @@ LEVEL = {
 }
 NOTE = {
  'C13': 'Trusted: libm, the harness reference evaluator (sim/refeval.h), ASan/UBSan. The value oracle is applied only where all subexpressions are finite and the result is stable under 1e-9 perturbations (tolerance 1e-6); the fresh-evaluator oracle is exact. State after a failed init is not judged. Inputs named like cse() temporaries (x0, x1, ...), used or unused by the outputs, are part of the workload. Known finding: CSE changes atan2(e, e) results (root cause in atan2 autoevaluation, pinned by the test suite). LLVM evaluators not covered.',
- 'C18': 'Trusted: ASan/UBSan. Inputs that could legitimately take very long or exhaust memory (towers of powers; special functions of literals above 4 digits or with exponents, nested/repeated special functions such as gamma(gamma(18)); zeta/dirichlet_eta/polygamma above 99) are filtered by a conservative syntactic predicate and not run. Hang = still in the same step after 4 watchdog periods (6 min) alone in a fresh process; slower-than-watchdog runs that finish are notes. Known findings (known_findings.jsonl): lowergamma(n, x) / uppergamma(n, x) recurse n deep - stack overflow from a 20-byte input; that input family (either name with a literal of >= 4 digits inside its argument list) is replayed from known/C18 and left out of random exploration. Only mutations of grammar-generated strings up to 2500 bytes; arbitrary byte strings (fuzzing) not claimed.',
+ 'C18': 'Trusted: ASan/UBSan. Inputs that could legitimately take very long or exhaust memory (towers of powers; special functions of literals above 4 digits or with exponents, nested/repeated special functions such as gamma(gamma(18)); zeta/dirichlet_eta/polygamma above 99) are filtered by a conservative syntactic predicate and not run. Hang = still in the same step after 4 watchdog periods (6 min) alone in a fresh process; slower-than-watchdog runs that finish are notes. Known findings (known_findings.jsonl): lowergamma(n, x) / uppergamma(n, x) recurse n deep - stack overflow from a 20-byte input; that input family (either name with a literal of >= 4 digits inside its argument list) is replayed from known/C18 and left out of random exploration. Only mutations of grammar-generated strings up to 2500 bytes; arbitrary byte strings (fuzzing) not claimed. The allocator seam decides when a freed address is reused (per-run policy); the free functions parse / parse_sbml get a constant map per call (same names, other values).',
  'C19': 'Trusted: eq/str/hash as equality oracles, ASan. Field-completeness of every save/load pair is sampled, not enumerated (all classes with a save_basic overload are in the generator, including URatPoly, PrimePi, Primorial); integers around the word-size boundaries (2^31, 2^32, 2^63, 2^64, 10^18, 10^19) are generated on purpose; dumps that fail half way (an unserialisable node after serialisable ones) are interleaved with ordinary round trips on the same thread. NaN-valued doubles skip the eq oracle; generator avoids inputs on which constructors (not serialization) misbehave (listed in DESIGN.md).',
  'C20': 'Trusted: ASan/UBSan, the memory budget (64 MB per request / 512 MB live -> std::bad_alloc). Only mutations of valid dumps are explored (incl. integer strings replaced by adversarial numerals: "-", "", "0" as a denominator, "+1", "0x10", 19-20 digit boundary values ...); post-load use is str, hash, eq, __cmp__, eval_double as the property lists. DenseMatrix::loads is not covered.',
  'C23': 'Trusted: the harness GF(p)[x] arithmetic and Rabin test, ASan/UBSan. p <= 199, degree <= 12 for factorisation (p = 2: <= 8), <= 24 for arithmetic histories (a larger result is checked, then cut). Forced draws are boundary values (0, 1, 2, n/2, n-1) at chosen draw indices or for a bounded prefix (<= 120 draws), after which the seeded generator continues: constant streams without end are not injected, because retry loops legitimately need fresh randomness. gf_eval is called with points in [0, p) only; division of a constant by a non-zero multiple of p is not called (no inverse exists).',
- 'C25': 'Trusted: DenseMatrix operations as reference, eq/expand for value comparison, ASan/UBSan. Matrices up to 8x8, entries numbers and monomials; a pool member whose entries grow beyond 40 expression nodes is checked and then replaced by small values on the same sparsity pattern (bounded run time). csr_matmat_pass2 results compared by value only (it neither sorts nor shrinks, as its SciPy original).',
- 'C32': 'Trusted: raw GMP arithmetic (mpz_add/mul/divisible, mpq_*) and __int128 brute force in the harness, ASan/UBSan. Bounds: n <= 1e6 plus 40-bit semiprimes and n = q*r >= 2^64 with a small prime q for factoring; moduli <= 4000, primes = 1 (mod 8) in [10000, 34000] (Tonelli-Shanks path), and prime powers <= 2^40 with gcd(a, p) = 1 for the group-structure oracle; pure functions on arguments up to 2e12 (fibonacci/lucas <= 400, factorial <= 200, bernoulli <= 44). Which non-trivial divisor / which root / which primitive root of a composite modulus is returned is unspecified: only validity is required; Pollard methods may fail, never lie. Roots are compared as residues (negative representatives accepted).',
- 'C33': 'Trusted: the harness sieve of Eratosthenes as reference, ASan/UBSan reporting. Bounds: sieve sizes {1,2,3,4,8,16,32,64} KB, limits <= 3e6, <=5 live iterators. A bounded iterator is allowed to return cached primes beyond its limit (callers test p <= limit).',
- 'C41': 'Trusted: ThreadSanitizer (bounded per-location history), the uninstrumented scheduler. Sequentially consistent interleavings at atomic-access granularity only (no hardware weak-memory effects); WITH_SYMENGINE_RCP=yes; operations outside the property list (sieve, series) not run concurrently. Besides shared expressions the workload has sibling pairs (same tree, one leaf changed, so eq/__cmp__ walk both to the end) and hand-off objects owned by the worker threads alone and released through reset / assignment / destruction (each must be destroyed exactly once).',
+ 'C25': 'Trusted: DenseMatrix operations as reference, eq/expand for value comparison, ASan/UBSan. Matrices up to 8x8, entries numbers and monomials; a pool member whose entries grow beyond 40 expression nodes is checked and then replaced by small values on the same sparsity pattern (bounded run time). csr_matmat_pass2 results compared by value only (it neither sorts nor shrinks, as its SciPy original). Result objects of binop / elementwise product may already hold an earlier result of the same shape.',
+ 'C32': 'Trusted: raw GMP arithmetic (mpz_add/mul/divisible, mpq_*) and __int128 brute force in the harness, ASan/UBSan. Bounds: n <= 1e6 plus 40-bit semiprimes and n = q*r >= 2^64 with a small prime q for factoring; moduli <= 4000, primes = 1 (mod 8) in [10000, 34000] (Tonelli-Shanks path), and prime powers <= 2^40 with gcd(a, p) = 1 for the group-structure oracle; pure functions on arguments up to 2e12 (fibonacci/lucas <= 400, factorial <= 200, bernoulli <= 44). Which non-trivial divisor / which root / which primitive root of a composite modulus is returned is unspecified: only validity is required; Pollard methods may fail, never lie. Roots are compared as residues (negative representatives accepted). The allocator seam decides when a freed address is reused (per-run policy).',
+ 'C33': 'Trusted: the harness sieve of Eratosthenes as reference, ASan/UBSan reporting. Bounds: sieve sizes {1,2,3,4,8,16,32,64} KB, limits <= 3e6, <=5 live iterators. A bounded iterator is allowed to return cached primes beyond its limit (callers test p <= limit). An allocation may be made to fail inside generate_primes / next_prime (std::bad_alloc is then an accepted outcome of that call; later results of every client are still judged).',
+ 'C41': 'Trusted: ThreadSanitizer (bounded per-location history), the uninstrumented scheduler. Sequentially consistent interleavings at atomic-access granularity only (no hardware weak-memory effects); WITH_SYMENGINE_RCP=yes; operations outside the property list (sieve, series) not run concurrently. Besides shared expressions the workload has sibling pairs (same tree, one leaf changed, so eq/__cmp__ walk both to the end) and hand-off objects owned by the worker threads alone and released through reset / assignment / destruction (each must be destroyed exactly once). Blocking locks (pthread mutex / rwlock / once, hence std::mutex, std::shared_mutex, std::call_once) are taken through non-blocking wrappers and a spinning thread is descheduled after 256 yields at one address, so correctly synchronised code is neither stopped nor reported (mutants/C41/benign_mutex_must_stay_silent.patch must give exit 0).',
 }
 TECH = {
- 'C13': 'deterministic simulation: seeded history on stateful evaluator objects + fresh-object / reference-evaluator oracles, ASan/UBSan, ddmin replay',
- 'C18': 'deterministic simulation: seeded input history on a reused parser with injected input faults + fresh-parser oracle, ASan/UBSan, ddmin replay',
+ 'C13': 'deterministic simulation: seeded history on stateful evaluator objects (re-init, repeated call points, moves) + allocator seam (address-reuse policies) + fresh-object / reference-evaluator oracles, ASan/UBSan, ddmin replay',
+ 'C18': 'deterministic simulation: seeded input history on reused parser objects and the free functions with injected input faults + allocator seam (address-reuse policies) + fresh-parser oracle, ASan/UBSan, ddmin and history-aware replay',
  'C19': 'deterministic simulation: allocator seam (address-reuse policies) + stream seam around dumps/loads, round-trip oracle, ddmin replay',
  'C20': 'deterministic simulation with storage fault injection (bit/byte/torn/lost/misdirected/field-targeted) under a memory budget, ASan/UBSan, ddmin replay',
  'C23': 'deterministic simulation: randomness seam (link-time wrap of rand() and mpz_urandomm: seed lists + forced draw outcomes), seeded histories on mutable polynomial objects with a reference model, independent GF(p) oracle, draw-budget liveness, history-aware replay',
  'C25': 'deterministic simulation: seeded operation history on mutable CSR matrices in lock step with a dense reference model, ASan/UBSan, ddmin replay',
- 'C32': 'deterministic simulation: randomness seam (rand() + forced mpz_urandomm draws) and perturbation of the process-global sieve between calls, brute-force / defining-identity oracles, seed and state independence',
- 'C33': 'deterministic simulation: seeded interleaving of cooperative clients over the global sieve + reference model, ASan/UBSan, ddmin replay',
- 'C41': 'deterministic simulation: seeded scheduler over real threads (parked/released at intercepted atomic accesses and static guards) + ThreadSanitizer + sequential reference, replay by plan',
+ 'C32': 'deterministic simulation: randomness seam (rand() + forced mpz_urandomm draws), perturbation of the process-global sieve between calls, allocator seam (address reuse), brute-force / defining-identity oracles, seed and state independence, history-aware replay',
+ 'C33': 'deterministic simulation: seeded interleaving of cooperative clients over the global sieve + reference model, allocation-failure injection inside sieve operations, ASan/UBSan, ddmin replay',
+ 'C41': 'deterministic simulation: seeded scheduler over real threads (parked/released at intercepted atomic accesses, static guards and blocking locks) + ThreadSanitizer + sequential reference + conservation (refcounts, exactly-once destruction), replay by plan',
 }
 
 
